@@ -100,6 +100,41 @@ def derive_base(repo):
     disk_branch = any(isinstance(n, ast.If) and re.search(r"isinstance\(\w+, str\)", _src(n.test)) for n in ast.walk(gr))
     if not disk_branch:
         raise FlagError("Get_results: no `isinstance(entry, str)` dispatch on the pinned path")
+    # --- everything Get_results calls (transitively, inside _simu.py) is uncached and assigns no attribute
+    methods = {n.name: n for n in simu.body if isinstance(n, ast.FunctionDef)}
+    modfuncs = {n.name: n for n in tree.body if isinstance(n, ast.FunctionDef)}
+    todo, seen_f = [gr], {}
+    while todo:
+        f = todo.pop()
+        if f.name in seen_f:
+            continue
+        seen_f[f.name] = f
+        for n in ast.walk(f):
+            if isinstance(n, ast.Call):
+                if isinstance(n.func, ast.Attribute) and isinstance(n.func.value, ast.Name) and n.func.value.id in ("self", "_Simu"):
+                    nm = n.func.attr
+                    for cand in (nm, "_Simu" + nm):
+                        if cand in methods:
+                            todo.append(methods[cand])
+                elif isinstance(n.func, ast.Name) and n.func.id in modfuncs:
+                    todo.append(modfuncs[n.func.id])
+    cached = []
+    for nm, f in seen_f.items():
+        for d in f.decorator_list:
+            if "cache" in _src(d).lower() or "memo" in _src(d).lower():
+                cached.append("%s is decorated with @%s (line %d)" % (nm, _src(d), f.lineno))
+        if f is not gr:
+            for n in ast.walk(f):
+                tg = n.targets if isinstance(n, ast.Assign) else ([n.target] if isinstance(n, (ast.AugAssign, ast.AnnAssign)) else [])
+                for t in tg:
+                    if any(_is_self_attr(x) for x in ast.walk(t)):
+                        cached.append("%s assigns %s (line %d)" % (nm, _src(t), n.lineno))
+            if any(isinstance(n, (ast.Global, ast.Nonlocal)) for n in ast.walk(f)):
+                cached.append("%s uses global/nonlocal state" % nm)
+    fl["disk_reads_uncached"] = not cached
+    fl["read_path_functions"] = sorted(seen_f)
+    if cached:
+        fl["read_path_caches"] = cached
     # --- Save_Iter: folder pinned at write time
     si = _fn(simu, "Save_Iter")
     appended = [n.args[0] for n in ast.walk(si) if isinstance(n, ast.Call) and isinstance(n.func, ast.Attribute) and n.func.attr == "append"
@@ -344,6 +379,7 @@ def gen_coq(base, classes):
     lines.append("Definition restores_mesh : bool := %s." % b(base["restores_mesh"]))
     lines.append("Definition get_results_stateless : bool := %s." % b(base["get_results_stateless"]))
     lines.append("Definition restores_unconditionally : bool := %s." % b(not any(classes[c]["guarded_restore"] for c in classes)))
+    lines.append("Definition disk_reads_uncached : bool := %s." % b(base["disk_reads_uncached"]))
     lines.append("Definition stores_all_restored_rates : bool := %s." % b(base.get("stores_all_restored_rates", True)))
     return "\n".join(lines) + "\n", cfgs
 
@@ -472,6 +508,9 @@ def gen_directed(rng, cid, aname, nf, nkeys, kind, allow):
             h.setmesh(); h.solve(); h.save()
             if rng.random() < 0.4:
                 h.solve(); h.save()
+        if "saveload" in allow and rng.random() < 0.7:
+            ops.append(["SaveLoad", rng.choice([1, 2, 4])])   # the meshes of the history now live on disk
+            h.nh = 0
         h.restore(rng.randrange(h.niter - 1), replay=rng.random() < 0.5)
         h.setmesh(); h.solve(); h.save()
         h.restore(h.niter - 1, "SetIterNeg")
@@ -744,6 +783,8 @@ def run(ctx):
                     c["alpha"] = a
                 cases.append(c)
                 cid += 1
+        can_mix = aname in ("Elastic_static", "Elastic_newmark", "Thermal_static", "Thermal_parabolic")
+        n_before = len(cases)
         for j in range(per):
             allow = set(full)
             if j % 3 == 1:
@@ -754,9 +795,18 @@ def run(ctx):
                                         cfgs[aname]["restore_copy_fields"] if base is not None else ())))
             cid += 1
         for j in range(ndirected):
-            cases.append(timed(gen_directed(ctx.rng, cid, aname, nf_model, len(keys), ["meshes", "virgin", "last"][j % 3], full)))
+            kind = ["meshes", "virgin", "last"][j % 3]
+            c = timed(gen_directed(ctx.rng, cid, aname, nf_model, len(keys), kind, full - ({"saveload"} if aname in ("Beam_static", "InElastic") else set())))
+            if kind == "last" and j < 3 * (1 if quick else 2):
+                c["twin"] = True      # a second simulation re-uses the same folders in the same process
+            cases.append(c)
             cid += 1
-    probes = ["phasefield_history", "inelastic_state", "algo_change", "init_shared", "save_then_folder_change", "phasefield_save"]
+        if can_mix:
+            # meshes with two element types of the main dimension (+ a boundary group): every other case
+            for k, c in enumerate(cases[n_before:]):
+                if k % 2 == 0 or ("SetMesh" in [o[0] for o in c["ops"]] and "SaveLoad" in [o[0] for o in c["ops"]]):
+                    c["mixed"] = True
+    probes = ["mesh_roundtrip", "phasefield_history", "inelastic_state", "algo_change", "init_shared", "save_then_folder_change", "phasefield_save"]
     req = {"root": os.path.join(ctx.build, "scratch"), "cases": cases, "probes": probes}
     rc, out, err = ctx.impl_python(script, input=json.dumps(req), timeout=1500)
     if rc != 0:
@@ -840,6 +890,16 @@ def run(ctx):
                 what = "%s: after restoring an iteration, %s at op %d: %s" % (c["sim"], "the committed internal variables are not those current at Save_Iter" if k == "restore-internal" else "the replayed continuation Solve differs from the original one", f["step"], json.dumps(d)[:200])
                 exp = "internal variables bitwise equal to the ghost taken at Save_Iter; the same Solve from the restored iteration reproduces the original continuation (1e-9 relative)"
                 ks = [k]
+            elif k == "load-mesh-group-order":
+                key = "load-mesh-group-order:%s" % cls
+                what = "%s: after %s the restored mesh lists its element groups as %s, it was %s when the iteration was saved" % (c["sim"], d.get("via"), d.get("group_order"), d.get("expected"))
+                exp = "same element-group order (dict_groupElem and Get_list_groupElem(dim)) as at Save_Iter"
+                ks = [k]
+            elif k == "element-results":
+                key = ("load-simu-element-results:%s" if d.get("after_load_simu") else "element-results-not-restored:%s") % cls
+                what = "%s: element-wise results %s (nodeValues=False) of iteration %d differ from those obtained at the time" % (c["sim"], d.get("results"), d["iter"])
+                exp = "Result(name, nodeValues=False) bitwise equal to the value obtained when the iteration was saved"
+                ks = [k]
             elif k == "get-results-impure":
                 key = "get-results-impure:%s" % cls
                 what = "%s: Get_results(%d) changed the simulation state" % (c["sim"], d["iter"])
@@ -855,6 +915,9 @@ def run(ctx):
                 what = "%s: %s at op %d: %s" % (c["sim"], k, f["step"], json.dumps(d)[:200])
                 exp = "Load_Simu(Save(s)) observes like s"
                 ks = [k]
+            if f.get("second_simulation") and k in ("restore-fields", "get-results-value", "result-value", "restore-mesh", "restore-internal", "element-results"):
+                key = "second-simulation-same-folder:" + key
+                what = "a SECOND simulation writing into the same folders in the same process reads back stale content: " + what
             if key not in seen_keys:
                 seen_keys[key] = (c, ks, what, exp, d.get("after") if k == "store-changed" else None)
         if r["error"] and r["error"].get("abandoned"):
@@ -908,6 +971,8 @@ def run(ctx):
     ctx.cov["op_distribution"] = opdist
     ctx.cov["sim_distribution"] = simdist
     ctx.cov["algorithm_coverage"] = algodist
+    ctx.cov["cases_on_mixed_type_meshes"] = len([c for c in cases if c.get("mixed")])
+    ctx.cov["cases_with_second_simulation_in_same_folders"] = len([c for c in cases if c.get("twin")])
     ctx.cov["model_vs_impl_final_states_compared"] = ncmp
     ctx.cov["rule"] = "random op lists (Solve/SaveIter/SetFolder/GetResults/SetIter/ResultQ/WriteRet/SetMesh/SaveLoad) per simulation class+mode, seeded by ctx.seed; non-trivial = at least 4 distinct op kinds; distinct = (class, kinds, length)"
     ctx.traces = len(cases)
@@ -918,7 +983,7 @@ def run(ctx):
     if mism:
         c, d = mism[0]
         ctx.violation("corr:model-vs-impl:%s" % c["sim"].split("_")[0], "model and implementation disagree on the final observation of %s: %s" % (c["sim"], "; ".join(d[:3])),
-                      {"case": c, "differences": d[:10], "model": model.get(c["id"]), "replay_py": REPLAY_CASE % dict(verif=common.VERIF, req={"cases": [c], "probes": []}, kinds=["store-changed", "restore-fields", "restore-mesh", "restore-internal", "continuation-differs", "result-value", "get-results-value", "get-results-impure", "save-load", "crash"], after=None, expected="the property predicates hold on this op list (the disagreement is then a modelling gap)")},
+                      {"case": c, "differences": d[:10], "model": model.get(c["id"]), "replay_py": REPLAY_CASE % dict(verif=common.VERIF, req={"cases": [c], "probes": []}, kinds=["store-changed", "restore-fields", "restore-mesh", "restore-internal", "continuation-differs", "load-mesh-group-order", "element-results", "result-value", "get-results-value", "get-results-impure", "save-load", "crash"], after=None, expected="the property predicates hold on this op list (the disagreement is then a modelling gap)")},
                       found_input=False)
     ctx.obligation("corr:property-predicates", not seen_keys, "; ".join(sorted(seen_keys))[:600])
     for key, (c, ks, what, exp, aft) in sorted(seen_keys.items()):
@@ -935,6 +1000,13 @@ def run(ctx):
         if "error" in P.get(p, {}):
             ctx.obligation("probe:" + p, False, P[p]["error"])
             probe_violation("probe-crash:" + p, p, None, "probe %s raised %s" % (p, P[p]["error"][:200]), "the probe runs")
+    pm = P.get("mesh_roundtrip", {})
+    if "violates" in pm:
+        ctx.obligation("probe:mesh_roundtrip", not pm["violates"], json.dumps(pm))
+        if pm["violates"]:
+            probe_violation("load-mesh-group-order" if not (pm["order_ok"] and pm["connect_main_dim_ok"]) else "load-mesh-roundtrip", "mesh_roundtrip", None,
+                            "Mesh.Save -> Load_Mesh of a TRI3+QUAD4(+SEG2) mesh does not give back the same mesh: %s" % json.dumps({k: v for k, v in pm.items() if k != "violates"}),
+                            "same group order, connectivity per group, coordinates, tags")
     ph = P.get("phasefield_history", {})
     for sub in ("resetAll=False", "resetAll=True"):
         if sub in ph:
